@@ -88,6 +88,23 @@ def get_metamodel(obj: Any) -> TextXMetaModel:
     return get_model(obj)._tx_metamodel
 
 
+def _type_selector(typ):
+    """
+    Returns a predicate that tells if an object is of the given type: a class
+    name, or a class. Rule names are unique per grammar file only, so the
+    classes of a meta-model are told apart by their fully qualified names.
+    """
+    if isinstance(typ, str):
+        return lambda obj: obj.__class__.__name__ == typ
+    fqn = getattr(typ, "_tx_fqn", None)
+    if fqn is None:
+        return lambda obj: obj.__class__.__name__ == typ.__name__
+    return lambda obj: (
+        getattr(obj.__class__, "_tx_fqn", obj.__class__.__name__) == fqn
+        and obj.__class__.__name__ == typ.__name__
+    )
+
+
 def get_parent_of_type(typ: str | type[T], obj: Any) -> T | None:
     """
     Finds first object up the parent chain of the given type.
@@ -99,12 +116,11 @@ def get_parent_of_type(typ: str | type[T], obj: Any) -> T | None:
         obj (model object): Python model object which is the start of the
             search process.
     """
-    if not isinstance(typ, str):
-        typ = typ.__name__
+    is_of_type = _type_selector(typ)
 
     while getattr(obj, "parent", None) is not None:
         obj = obj.parent
-        if obj.__class__.__name__ == typ:
+        if is_of_type(obj):
             return obj
     return None
 
@@ -189,11 +205,8 @@ def get_children_of_type(
             traversed.
     """
 
-    if not isinstance(typ, str):
-        typ = typ.__name__
-
     return get_children(
-        lambda x: x.__class__.__name__ == typ,
+        _type_selector(typ),
         root,
         children_first=children_first,
         should_follow=should_follow,
